@@ -253,7 +253,7 @@ GaugeZero  == (\A r \in Slots : req[r].k # "ws" \/ req[r].pc = "acct") => gauge 
 Monotone == [][\A c \in Keys : cnt'[c] >= cnt[c]]_vars
 
 (* the route metric name: one timer per name; distinct targets must not share one *)
-NamesDistinct == \A t, u \in Targets : t # u => Name[t] # Name[u]
+NamesDistinct == nreq >= 0 /\ \A t, u \in Targets : t # u => Name[t] # Name[u]
 ByName(n) == MapThenSumSet(LAMBDA t : cnt[RouteKey(t)], {t \in Targets : Name[t] = n})
 NameTimerExact == Quiescent => \A t \in Targets : ByName(Name[t]) = gdoc[RouteKey(t)]
 
